@@ -460,6 +460,42 @@ impl Space for NamePairs {
     }
 }
 
+/// check_identifier after data queries on the same provider: the verdict about a name is that of a fresh
+/// provider (the IANA names, whatever their letter case - and nothing else, although other files of the zoneinfo
+/// directory can be loaded by name).
+struct IdentifierAfterQueries;
+const IAQ_NAMES: [&str; 12] = ["posixrules", "localtime", "Factory", "posix/Europe/Berlin", "right/UTC", "right/Europe/Berlin", "Europe/Berlin", "europe/berlin", "EST5EDT", "tzdata.zi", "Nowhere/Special", "Etc/GMT+1"];
+impl Space for IdentifierAfterQueries {
+    fn name(&self) -> String {
+        "c15.identifier_after_queries".into()
+    }
+    fn len(&self) -> u64 {
+        (IAQ_NAMES.len() * IAQ_NAMES.len()) as u64
+    }
+    fn block(&self) -> u64 {
+        4
+    }
+    fn eval(&self, i: u64, out: &mut Out) {
+        let (queried, asked) = (IAQ_NAMES[i as usize / IAQ_NAMES.len()], IAQ_NAMES[i as usize % IAQ_NAMES.len()]);
+        let known = zone_names();
+        let model = |n: &str| known.iter().any(|k| k.eq_ignore_ascii_case(n));
+        let p = FsTzdbProvider::default();
+        out.nontrivial += 1;
+        let attrs = |when: &str| vec![("queried", queried.to_string()), ("asked", asked.to_string()), ("when", when.to_string()), ("asked_is_a_loadable_file", std::path::Path::new(&format!("{ZONEINFO}/{asked}")).is_file().to_string())];
+        let before = call_inf(|| p.check_identifier(asked));
+        out.lockstep("check_identifier", &Ok(model(asked)), &before, |a, b| a == b, || attrs("fresh provider"));
+        let _ = call(|| p.get_named_tz_offset_nanoseconds(queried, 1_600_000_000_000_000_000));
+        if let Some(dt) = iso_dt(1_600_000_000_000_000_000) {
+            let _ = call(|| p.get_named_tz_epoch_nanoseconds(queried, dt));
+        }
+        let after = call_inf(|| p.check_identifier(asked));
+        out.lockstep("check_identifier", &Ok(model(asked)), &after, |a, b| a == b, || attrs("after an offset query and a local query"));
+    }
+    fn describe(&self) -> serde_json::Value {
+        json!({"names": IAQ_NAMES, "ordered_pairs": IAQ_NAMES.len() * IAQ_NAMES.len()})
+    }
+}
+
 /// A TZif version-2 file written by the harness: `types` (utoff, isdst), `trans` (time, type), footer.
 pub fn write_tzif(types: &[(i32, bool)], trans: &[(i64, u8)], footer: &str) -> Vec<u8> {
     fn header(out: &mut Vec<u8>, timecnt: u32, typecnt: u32, charcnt: u32) {
@@ -606,7 +642,7 @@ impl Space for SyntheticFiles {
 
 pub fn spaces(env: &Env) -> Vec<Box<dyn Space>> {
     let names = zone_names();
-    vec![Box::new(ZoneSweep { names: names.clone(), tier: env.tier }), Box::new(SyntheticFiles::new()), Box::new(NamePairs::new(&names, env.tier)), Box::new(Identifiers { names }), Box::new(Histories { depth: env.tier.pick(3, 4), fresh: (0..13).map(|q| query(&FsTzdbProvider::default(), q)).collect() })]
+    vec![Box::new(ZoneSweep { names: names.clone(), tier: env.tier }), Box::new(SyntheticFiles::new()), Box::new(NamePairs::new(&names, env.tier)), Box::new(IdentifierAfterQueries), Box::new(Identifiers { names }), Box::new(Histories { depth: env.tier.pick(3, 4), fresh: (0..13).map(|q| query(&FsTzdbProvider::default(), q)).collect() })]
 }
 
 pub fn run(env: &Env) -> i32 {
